@@ -201,12 +201,16 @@ def _add_component_to_parser(
 
 def _run_component(component, cfg):
     cfg.pop("config", None)
-    subcommand = cfg.pop("subcommand")
-    if inspect.isclass(component) and subcommand:
+    # only classes have a subcommands dest, in a function "subcommand" can only be one of its parameters
+    subcommand = cfg.pop("subcommand") if inspect.isclass(component) else None
+    if subcommand:
         subcommand_cfg = cfg.pop(subcommand, {})
-        subcommand_cfg.pop("config", None)
+        method_object = getattr(component, subcommand)
+        # a method with a "config" parameter does not get a --config option, see _add_component_to_parser
+        if isinstance(method_object, property) or not has_parameter(method_object, "config"):
+            subcommand_cfg.pop("config", None)
         component_obj = component(**cfg)
-        if isinstance(getattr(component, subcommand), property):
+        if isinstance(method_object, property):
             return getattr(component_obj, subcommand)
         component = getattr(component_obj, subcommand)
         cfg = subcommand_cfg
